@@ -186,7 +186,10 @@ def _hyp_cases():
     anystr = st.text(alphabet=st.characters(), max_size=200)   # includes surrogates
     biased = st.text(alphabet=st.sampled_from(STR_ALPHA + ['\r', '\v', '\f', '\u3000', '\xa0', '\U0001f600']), max_size=60)
     nums = st.one_of(st.integers(-10**30, 10**30), st.floats(allow_nan=False), st.sampled_from([0, -1, 0.0, -0.0, 1e22, 1.5, float('inf')]))
+    longs = st.tuples(st.sampled_from(['a', '"', '\\', '\x00', '\xe9', 'ab "c" ']), st.sampled_from([700, 1500, 4400, 9000])).map(lambda t: t[0] * (t[1] // len(t[0])))
     return st.one_of(
+        longs.map(lambda x: {'k': 'str', 'x': x}),
+        longs.map(lambda x: {'k': 'atom', 'a': 'x' + x.replace(' ', '_').replace('\x00', '0')}),
         anystr.map(lambda x: {'k': 'str', 'x': x}),
         biased.map(lambda x: {'k': 'str', 'x': x}),
         nums.map(lambda x: {'k': 'num', 'x': x}),
